@@ -30,6 +30,7 @@ from .e3_spaces import Arr, Idx
 from .sem import unfn
 from . import c02_sem as S
 from .c02_types import ValueTyper
+from .c02_world import World, WORLDS
 
 UTIL = "pyyeti/ode/_utilities.py"
 I = F.I
@@ -508,8 +509,10 @@ def r1_dynamic_stiffness(ctx):
                     axis, sel = _unwrap_axis(jx)
                     if sel is not None and not is_unknown(sel) and sel.is_const():
                         syms = _symbols(S.erase_idx(base))
-                        if "freq" in syms or ("force" in syms and axis >= 1):
+                        if "freq" in syms or ("force" in syms and (axis >= 1 or axis == -1)):
                             fixed.append(f"{base!r}[{'..., ' if axis else ''}{sel!r}]")
+                if not _refutable(ctx, run, not fixed, f"{run.label}: the displacement at each frequency is computed from that frequency", node, val):
+                    continue
                 ctx.check(not fixed, f"{run.label}: the displacement at each frequency is computed from that frequency and that column of the force (no fixed "
                                      "entry of a frequency vector, no fixed column of the force)", node, None if not fixed else fixed)
                 V = S.erase_idx(val)
@@ -585,8 +588,10 @@ def _symbols(v):
 
 
 def _unwrap_axis(ix):
-    """ax<k>(M) -> (k, M);  M -> (0, M)"""
+    """ax<k>(M) -> (k, M);  axL(M) -> (-1, M) (the last axis, whichever that is);  M -> (0, M)"""
     u = unfn(ix) if ix is not None and not is_unknown(ix) else None
+    if u is not None and u[0] == "axL" and len(u[1]) == 1 and not isinstance(u[1][0], str):
+        return -1, u[1][0]
     if u is not None and u[0].startswith("ax") and u[0][2:].isdigit() and len(u[1]) == 1 and not isinstance(u[1][0], str):
         return int(u[0][2:]), u[1][0]
     return 0, ix
@@ -747,17 +752,20 @@ def r2_derivative_relations(ctx):
                                     "from the displacement stored on the same rows", at, None if ok else {which: repr(val)}, tag=which)
             if run.solver != "SolveUnc":
                 continue
-            # ---- rigid-body rows: the acceleration is primary; v = a / (i W), d = -a / W^2 wherever W != 0, zero at 0 Hz
+            # ---- rigid-body rows: the acceleration is primary; v = a / (i W), d = -a / W^2 wherever W != 0, zero at 0 Hz.
+            # Decided by what the rows hold in each class of frequencies (W > 0, W < 0, W = 0; c02_world): a mask, its index form, a vector of
+            # integration factors filled under the mask, np.where, an array of its own or a masked write into the result are the same thing there.
             acs = run.cells("a", ("RB",))
             if not acs or is_unknown(acs[-1][3]):
                 ctx.error(f"{run.label}: rigid-body acceleration store", run.fn)
                 continue
-            A = acs[-1][3]
-            sa = S.sym_name(A)
-            if sa is not None and sa in tr.idents and len(tr.cells_of(sa)) == 1 and tr.cells_of(sa)[0][1] is None:
-                A = tr.cells_of(sa)[0][2]
+            worlds = {w: World(run, w) for w in WORLDS}
             try:
-                Ae = S.erase_idx(A)
+                rbix = _row_selector(acs[-1][2])
+                Aw = {w: worlds[w].rows("a", rbix, None) for w in WORLDS}
+                if any(len(Aw[w]) != 1 for w in WORLDS) or not all(_eq(Aw[w][0], Aw["pos"][0]) for w in WORLDS):
+                    raise Unsupported("it is not one formula at every frequency: " + repr({w: [repr(x) for x in Aw[w]] for w in WORLDS}))
+                Ae = Aw["pos"][0]
             except Unsupported as e:
                 ctx.error(f"{run.label}: rigid-body acceleration", acs[-1][4], str(e))
                 continue
@@ -767,58 +775,53 @@ def r2_derivative_relations(ctx):
                     ctx.error(f"{run.label}: rigid-body {which} store", run.fn)
                     continue
                 _, _, ix, val, node, clk = cs[-1]
-                B = S.sym_name(val) if not is_unknown(val) and not isinstance(val, tuple) else None
-                ui = unfn(ix) if ix is not None and not is_unknown(ix) else None
-                if B is not None and B in tr.idents:
-                    fills = [c for c in tr.cells_of(B) if c[4] < clk]
-                    if len(fills) > 1 and fills[0][1] is None and _zero(fills[0][2]):
-                        fills = fills[1:]          # (cleared as a whole first: that is how it "starts as zeros", checked below)
-                elif ui is not None and ui[0] == "tuple" and len(ui[1]) == 2 and not any(isinstance(z, str) for z in ui[1]) and not is_unknown(val) \
-                        and not isinstance(val, tuple):
-                    # written in place: {which}[rb, selection] = ...   (the pairing of the two selectors is the typing rule's business)
-                    B = run.ids[which]
-                    fills = [(B, F.fn("ax1", ui[1][1]), val, node, clk)]
-                else:
-                    ctx.error(f"{run.label}: the rigid-body {which} is neither assembled in an array of its own nor written under a frequency selection", node, repr(val))
-                    continue
-                if not fills:
-                    _check_once(ctx, False, f"{run.label}: rigid-body {txt} (from the acceleration stored on the same rows)", node,
-                                f"the array stored into {which}[rb] is never filled: the rigid-body {which} stays zero at every frequency", tag=("rb", which))
-                    continue
-                if len(fills) != 1 or is_unknown(fills[0][2]) or isinstance(fills[0][2], tuple) or fills[0][1] is None or is_unknown(fills[0][1]):
-                    ctx.error(f"{run.label}: the rigid-body {which} array is filled in a way the rule cannot read", node, [repr(c[2]) for c in fills])
-                    continue
-                f0 = fills[0]
-                axis, M = _unwrap_axis(f0[1])
+                for w in WORLDS:
+                    worlds[w].selections = []
                 try:
-                    ok = S.erase_idx(f0[2]).equals(want)
+                    cont = {w: worlds[w].rows(which, _row_selector(ix), None) for w in WORLDS}
                 except Unsupported as e:
-                    ctx.error(f"{run.label}: rigid-body {which}", f0[3], str(e))
+                    ctx.error(f"{run.label}: what the rigid-body rows of {which} hold at the non-zero frequencies and at 0 Hz cannot be evaluated", node, str(e))
                     continue
-                if not _refutable(ctx, run, ok, f"{run.label}: rigid-body {txt}", f0[3], f0[2], A):
+                # the store(s) that carry the formula: where the obligations are reported
+                fnodes = [n for _, _, _, n, is_store in worlds["pos"].selections if is_store and n is not None]
+                fnode = fnodes[-1] if fnodes else node
+                nz = cont["pos"] + cont["neg"]
+                filled = [x for x in nz if not _zero(x)]
+                if not filled:
+                    _check_once(ctx, False, f"{run.label}: rigid-body {txt} (from the acceleration stored on the same rows)", node,
+                                f"nothing is stored into the rigid-body rows of {which} at a non-zero frequency: they stay zero at every frequency", tag=("rb", which))
                     continue
-                _check_once(ctx, ok, f"{run.label}: rigid-body {txt} (from the acceleration stored on the same rows)", f0[3], None if ok else {which: repr(f0[2]), "a": repr(A)},
-                            tag=("rb", which))
-                _freq_mask(ctx, run, M, f0[3], which)
-                # the same selection on both sides, along the frequency axis of each operand
+                ok = all(_eq(x, want) for x in filled)
+                if not _refutable(ctx, run, ok, f"{run.label}: rigid-body {txt}", fnode, *(filled + [Ae])):
+                    continue
+                _check_once(ctx, ok, f"{run.label}: rigid-body {txt} (from the acceleration stored on the same rows)", fnode,
+                            None if ok else {which: [repr(x) for x in filled], "a": repr(Ae)}, tag=("rb", which))
+                # filled at every non-zero frequency, not at 0 Hz
+                uninit = lambda z: S.sym_name(z) == "<uninitialised memory>"      # noqa: E731
+                ok = all(not _zero(x) for x in nz) and all(_zero(z) or uninit(z) for z in cont["zero"])
+                if _refutable(ctx, run, ok, f"{run.label}: rigid-body {which} frequency selection", fnode, *(nz + cont["zero"])):
+                    _check_once(ctx, ok, f"{run.label}: the rigid-body {which} is filled at every frequency except 0 Hz (selection `W != 0`)", fnode,
+                                None if ok else {"W > 0": [repr(x) for x in cont["pos"]], "W < 0": [repr(x) for x in cont["neg"]], "W = 0": [repr(x) for x in cont["zero"]],
+                                                 "consequence": "frequencies that are excluded without being zero keep a zero response although a = F/m is returned there; "
+                                                                "at 0 Hz the response must stay zero"},
+                                key=f"C02-R2|{run.family}|{run.m_none}|rb {which} frequency selection", tag="mask")
+                # the selection restricts the frequency axis of each operand: columns of a response, entries of a frequency vector
                 bad = []
-                for base, ix in S.atoms_of(f0[2], "idx"):
-                    ax2, M2 = _unwrap_axis(ix)
-                    if isinstance(M2, str) or M2 is None or not _eq(M2, M):
-                        continue
+                for base, ax, M, n_, is_store in worlds["pos"].selections:
                     try:
-                        freq_only = _symbols(S.erase_idx(base)) <= {"freq", "pi", "I"}
+                        vals = worlds["pos"].value(base, None) if not is_store else worlds["pos"].array(S.sym_name(base), None) \
+                            if S.sym_name(base) not in run.ids.values() else None
+                        freq_only = vals is not None and all(_symbols(x) <= {"freq", "pi", "I"} for x in vals) and not all(_zero(x) for x in vals)
                     except Unsupported:
-                        freq_only = False
-                    if (ax2 == 0) != freq_only:
-                        bad.append(f"`{base!r}` is restricted along axis {ax2}")
-                ok = axis >= 1 and not bad
-                if not _refutable(ctx, run, ok, f"{run.label}: rigid-body {which} write", f0[3], f0[2]):
-                    continue
-                _check_once(ctx, ok, f"{run.label}: the rigid-body {which} write is restricted to the non-zero frequencies on both sides (columns of the response, "
-                                     "entries of the frequency vector)", f0[3], None if ok else bad or f"target axis {axis}", tag=("rbaxis", which))
-                ok = _starts_zero(tr, B, f0[4])
-                ctx.check(ok, f"{run.label}: the rigid-body {which} starts as zeros, so the 0 Hz entries stay zero", node, None if ok else repr(tr.init.get(B)))
+                        continue
+                    if ax != -1 and (ax == 0) != freq_only:
+                        bad.append(f"`{base!r}` is restricted along axis {ax}")
+                if _refutable(ctx, run, not bad, f"{run.label}: rigid-body {which} write", fnode, val):
+                    _check_once(ctx, not bad, f"{run.label}: the rigid-body {which} write is restricted to the non-zero frequencies on both sides (columns of the response, "
+                                              "entries of the frequency vector)", fnode, None if not bad else sorted(set(bad)), tag=("rbaxis", which))
+                ok = all(_zero(z) for z in cont["zero"])
+                if _refutable(ctx, run, ok, f"{run.label}: rigid-body {which} at 0 Hz", node, *cont["zero"]):
+                    ctx.check(ok, f"{run.label}: the rigid-body {which} starts as zeros, so the 0 Hz entries stay zero", node, None if ok else [repr(z) for z in cont["zero"]])
     _returned_solution(ctx)
 
 
@@ -1053,9 +1056,30 @@ def _psd_opts(psd_id=None, pp=None):
 
 
 def _psd_run(ctx, fn, present, env=None, opts=None):
+    """solvepsd evaluated with the given recovery matrices present and unit uncertainty factors; a test on the shapes of the data that the
+    configuration leaves open (an argument check that is more than a bare `raise`) is taken both ways and the combinations that end in the
+    exception are dropped.  Returns the traces of the combinations that return (one, unless the function tests something else)"""
+    pres = set(present)
+
+    class _Cfg(S._ForkConfig):
+        def truth(self, v):
+            r = _drm_truth(v, pres)
+            if r is not None:
+                return r
+            u = unfn(v) if v is not None and not is_unknown(v) and not isinstance(v, tuple) else None
+            if u is not None and u[0] in ("call:.any", "call:np.any") and len(u[1]) == 1:
+                return True          # the generic force has a PSD and a shape that do not vanish identically
+            return super().truth(v)
+    try:
+        found = S.explore(ctx, fn, {"rbduf != 1.0": False, "elduf != 1.0": False}, opts or _psd_opts(), limit=8, cfg_cls=_Cfg, env=env)
+    except Unsupported:
+        found = []
+    alive = [tr for _, tr, _ in found if not tr.raised]
+    if alive:
+        return alive
     ev = S.PathEval(fn, ctx, _PsdConfig(present), opts or _psd_opts(), env=env)
     ev.run(fn.body)
-    return ev.trace
+    return [ev.trace]
 
 
 def _psd_paths(ctx, fn):
@@ -1092,13 +1116,24 @@ def _psd_ids(trace, fn):
     return rets[-1][0], S.sym_name(rets[-1][1])
 
 
+def _last_axis_is_columns(v):
+    """solvepsd's operands (t_frc, drmf, the FRFs) are rows x columns arrays: a selector on their last axis is one on axis 1"""
+    if v is None or is_unknown(v) or isinstance(v, tuple):
+        return v
+    try:
+        return S.rewrite(v, lambda kind, name, args: F.fn("ax1", args[0]) if kind == "fn" and name == "axL" and len(args) == 1 and not isinstance(args[0], str)
+                         else NotImplemented)
+    except Unsupported:
+        return v
+
+
 def _psd_increment(trace, pid, fn):
     """the increment of psd[j] in the generic (force, entry) iteration: (increment, index, node) or (None, None, node)"""
     cs = trace.cells_of(pid)
     if len(cs) != 1 or is_unknown(cs[0][2]) or isinstance(cs[0][2], tuple) or cs[0][1] is None or is_unknown(cs[0][1]):
         return None, None, (cs[0][3] if cs else fn)
     c = cs[0]
-    return need(c[2]) - F.fn("idx", F.sym(pid), c[1]), c[1], c[3]
+    return _last_axis_is_columns(need(c[2]) - F.fn("idx", F.sym(pid), c[1])), c[1], c[3]
 
 
 def _psd_foreign(fn, trace, *values):
@@ -1148,7 +1183,7 @@ def r5_solvepsd(ctx):
         calls = [c for c in trace.calls if c[0].endswith(".fsolve") or c[0] == "fsolve"]
         if len(calls) != 1 or len(calls[0][1]) < 2:
             raise Unsupported("one call of the solver's fsolve per force")
-        gen, fq = calls[0][1][0], calls[0][1][1]
+        gen, fq = _last_axis_is_columns(calls[0][1][0]), calls[0][1][1]
         fi = None
         for s_ in sorted(trace.loop_syms):
             if _eq(gen, F.fn("idx", F.sym("t_frc"), F.fn("ax1", F.sym(s_)))):
@@ -1207,26 +1242,38 @@ def r5_solvepsd(ctx):
     # ---- a recovery matrix that is None drops exactly its own term
     for k in range(4):
         present = tuple(j for j in range(4) if j != k)
-        t2 = _psd_run(ctx, fn, present)
-        pid = _psd_ids(t2, fn)[1]
-        inc2, _, node2 = _psd_increment(t2, pid, fn) if pid else (None, None, fn)
-        try:
-            if inc2 is None or t2.undecided:
-                raise Unsupported("accumulation")
-            _, _, want2 = expected(t2, present)
-        except Unsupported as e:
-            ctx.error(f"solvepsd: accumulation when entry {k} of a drmlist tuple is None ({e})", node2)
-            continue
-        ok = _eq(inc2, want2)
-        if not ok and _psd_foreign(fn, t2, inc2):
-            ctx.error(f"solvepsd: accumulation when entry {k} of a drmlist tuple is None: the term contains atoms the rule cannot interpret", node2, repr(inc2))
-            continue
-        ctx.check(ok, f"solvepsd: a None in position {k} of a drmlist entry drops exactly the term `{names[k]}`", node2, None if ok else {"increment": repr(inc2), "want": repr(want2)})
+        verdict = None          # (ok, node, detail) over every combination that returns; an unreadable one -> analysis error
+        for t2 in _psd_run(ctx, fn, present):
+            pid = _psd_ids(t2, fn)[1]
+            inc2, _, node2 = _psd_increment(t2, pid, fn) if pid else (None, None, fn)
+            try:
+                if inc2 is None or t2.undecided:
+                    raise Unsupported("accumulation" if inc2 is None or not t2.undecided else
+                                      "the test `%s` cannot be decided" % (ast.unparse(t2.undecided[0][0]) if not isinstance(t2.undecided[0][0], ast.stmt) else type(t2.undecided[0][0]).__name__))
+                _, _, want2 = expected(t2, present)
+            except Unsupported as e:
+                ctx.error(f"solvepsd: accumulation when entry {k} of a drmlist tuple is None ({e})", node2)
+                verdict = "error"
+                break
+            ok = _eq(inc2, want2)
+            if not ok and _psd_foreign(fn, t2, inc2):
+                ctx.error(f"solvepsd: accumulation when entry {k} of a drmlist tuple is None: the term contains atoms the rule cannot interpret", node2, repr(inc2))
+                verdict = "error"
+                break
+            if verdict is None or not ok:
+                verdict = (ok, node2, None if ok else {"increment": repr(inc2), "want": repr(want2)})
+        if verdict is not None and verdict != "error":
+            ctx.check(verdict[0], f"solvepsd: a None in position {k} of a drmlist entry drops exactly the term `{names[k]}`", verdict[1], verdict[2])
     # ---- rms^2 = trapezoidal area of the PSD over the frequency vector: evaluated on a generic 4-point grid (symbolic f0..f3, p0..p3)
     NF = 4
     fr = tuple(F.sym(f"f{i}") for i in range(NF))
     pp = tuple(F.sym(f"p{i}") for i in range(NF))
-    t3 = _psd_run(ctx, fn, (0, 1, 2, 3), env={"freq": fr}, opts=_psd_opts(psd_id, pp))
+    t3s = _psd_run(ctx, fn, (0, 1, 2, 3), env={"freq": fr}, opts=_psd_opts(psd_id, pp))
+    if len(t3s) != 1 or t3s[0].undecided:
+        ctx.error("solvepsd: rms formula: the function tests something the rule cannot decide on the way to it", fn,
+                  [ast.unparse(t) if not isinstance(t, ast.stmt) else type(t).__name__ for tr in t3s for t, _ in tr.undecided][:4])
+        return
+    t3 = t3s[0]
     rv = _psd_ids(t3, fn)[0]
     if isinstance(rv, tuple) and len(rv) == 1:
         rv = rv[0]                         # a list built by appending in the loop over the psd list: its generic entry
